@@ -109,6 +109,11 @@ pzgstrf_pivotL(
 	if ( lsub_ptr[isub] == diagind ) diag = isub;
     }
 
+    SLU_MT_VERIF_EVENT(SLU_EV_PIVOT, pnum, jcol, nsupr - nsupc, nsupc, Glu);
+#ifdef SLU_MT_VERIF
+    if ( pivmax == 0.0 )
+	SLU_MT_VERIF_EVENT(SLU_EV_PIVOT_ZERO, pnum, jcol, nsupr - nsupc, 0, Glu);
+#endif
     /* Test for singularity */
     if ( pivmax == 0.0 ) {
 	*pivrow = lsub_ptr[pivptr];
@@ -141,6 +146,10 @@ pzgstrf_pivotL(
     perm_r[*pivrow] = jcol;
     inv_perm_r[jcol] = *pivrow;
     
+#ifdef SLU_MT_VERIF
+    if ( pivptr != nsupc )
+	SLU_MT_VERIF_EVENT(SLU_EV_ROWSWAP, pnum, jcol, fsupc, 0, Glu);
+#endif
     /* Interchange row subscripts */
     if ( pivptr != nsupc ) {
 	itemp = lsub_ptr[pivptr];
@@ -174,6 +183,7 @@ pzgstrf_pivotL(
 	printf("  lu[%d] %f\n", lsub_ptr[k], lu_col_ptr[k]);
 #endif
 
+    SLU_MT_VERIF_EVENT(SLU_EV_PIVOT_DONE, pnum, jcol, *pivrow, 0, Glu);
     return 0;
 }
 
